@@ -44,7 +44,7 @@ var c19Script = "title: Start\n---\n" +
 	`{cap("round", round($x))}{cap("round_places", round_places($x, $n))}{cap("string", string($x))}{cap("roundtrip", number(string($x)))}` +
 	`{cap("round_places-nested", round_places($x, integer(number(string($n)))))}{cap("floor-nested", floor(number(string($x))))}` +
 	`{cap("number-id", number($x))}{cap("bool-roundtrip", bool(string($b)))}{cap("bool-id", bool($b))}{cap("string-id", string($s))}{cap("string-b", string($b))}` +
-	"\n{cap(\"bad-number\", number($s))}\n{cap(\"bad-bool\", bool($s))}\nlast\n===\n"
+	"\n{cap(\"bad-number\", number($s))}\n{cap(\"bad-bool\", bool($s))}\ncross {number($b)} {bool($x)} {bool(number($b))}\nlast\n===\n"
 
 // c19FailingFirst: every numeric built-in is first called with a string argument (an error, C06) on the same runner:
 // the contracts hold for the calls that follow all the same.
@@ -218,6 +218,11 @@ func runC19(c c19Case) Verdict {
 	}
 	if ev := h.step(0); ev.K != "err" {
 		return bad("bool(%q) must be an error, got %s (captured %v)", c.S, ev, got["bad-bool"])
+	}
+	// conversions across types (a boolean to a number, a number to a boolean): what they give is not stated - a value or an
+	// error, never a panic
+	if ev := h.step(0); ev.K != "line" && ev.K != "err" {
+		return bad("number(%v), bool(x): %s", c.B, ev)
 	}
 	if ev := h.step(0); ev.K != "line" || ev.Text != "last" {
 		return bad("after the two failing conversions the dialogue did not continue: %s", ev)
